@@ -6,7 +6,7 @@ Everything the Lean model branches on is regenerated here:
 * values       — `_DEFAULT_RETRYABLE`, the dataclass defaults of `HttpRetryConfig`, `_MAX_BACKOFF_EXPONENT`
 * BoundCheck   — which comparison `__post_init__` applies to `backoff_base` / `backoff_max`
                  (`x < 0` = negOnly: NaN and inf pass;  `not (0 <= x < math.inf)` = finiteNonneg)
-* delay shape  — exponent clamp (`2 ** min(attempt, K)` vs `2 ** attempt`), jitter guard for an infinite ceiling, and
+* delay shape  — exponent clamp (`float(base) * 2.0 ** min(attempt, K)` vs `base * 2 ** attempt`), jitter guard for an infinite ceiling, and
                  the exact argument order of the `min` / `max` clamps (NaN semantics depend on it)
 * loop shape   — the skeleton of `_request_with_retry` (logger calls and docstrings removed) compared with the
                  skeleton the model transliterates; the except clauses and the disconnect marker are also emitted
@@ -198,7 +198,7 @@ def _delay_shape(tree: ast.AST, max_exp: int | None) -> dict:
         return res
     if body[0] == "exp_delay = config.backoff_base * 2 ** attempt":
         res["expClamp"], res["expRecognised"] = None, True
-    elif body[0] == "exp_delay = config.backoff_base * 2 ** min(attempt, _MAX_BACKOFF_EXPONENT)" and isinstance(max_exp, int) and max_exp >= 0:
+    elif body[0] == "exp_delay = float(config.backoff_base) * 2.0 ** min(attempt, _MAX_BACKOFF_EXPONENT)" and isinstance(max_exp, int) and max_exp >= 0:
         res["expClamp"], res["expRecognised"] = max_exp, True
     if body[1] == "jittered = random.uniform(0, exp_delay)":
         res["jitterGuard"], res["jitterRecognised"] = False, True
@@ -492,7 +492,7 @@ def maxRetriesCheckIsLtZero : Bool := {_b(val["max_retries"] == "ltZero")}
 def baseCheck : BoundCheck := .{val["backoff_base"]}
 def maxCheck : BoundCheck := .{val["backoff_max"]}
 
-/-- `_compute_delay`: `2 ** min(attempt, K)` → `some K`; `2 ** attempt` → `none` -/
+/-- `_compute_delay`: `float(base) * 2.0 ** min(attempt, K)` → `some K`; `base * 2 ** attempt` → `none` -/
 def expClamp : Option Nat := {clamp}
 /-- `_compute_delay`: `random.uniform(0, exp_delay) if exp_delay < math.inf else exp_delay` -/
 def jitterGuard : Bool := {_b(dly["jitterGuard"])}
